@@ -184,6 +184,39 @@ fn main() {
             let n: usize = args.get(3).and_then(|s| s.parse().ok()).unwrap_or(200);
             diff(seed, n)
         }
+        Some("replay") => {
+            // one request line on stdin: answer it with the implementation and with the model
+            let mut line = String::new();
+            let _ = std::io::stdin().read_line(&mut line);
+            let line = line.trim_end_matches(|c| c == '\n' || c == '\r').to_string();
+            if line.is_empty() || line.starts_with("text-vs-value") || line.starts_with("optimised-vs-reloaded") {
+                println!("this replay has no protocol request; its input is the `rule_or_input` field of the replay file");
+                std::process::exit(0);
+            }
+            let imp = implside::handle(&line);
+            println!("implementation: {}", imp);
+            match driver::Driver::spawn() {
+                Ok(mut d) => {
+                    let model = d.ask(&line);
+                    println!("model         : {}", model);
+                    if model.is_empty() || model.starts_with("unsupported") || line.starts_with("loadtext") {
+                        println!("(implementation-only request)");
+                        std::process::exit(if imp.starts_with("PANIC") { 1 } else { 0 });
+                    }
+                    if imp == model {
+                        println!("replies agree");
+                        std::process::exit(0);
+                    } else {
+                        println!("replies DIFFER: {}", check::first_diff(&imp, &model));
+                        std::process::exit(1);
+                    }
+                }
+                Err(e) => {
+                    println!("cannot start the Lean driver: {}", e);
+                    std::process::exit(2);
+                }
+            }
+        }
         Some("check") => {
             let prop = args.get(2).cloned().unwrap_or_default();
             let tier = args.get(3).cloned().unwrap_or_else(|| "quick".into());
@@ -191,6 +224,6 @@ fn main() {
             let out = args.get(5).cloned().unwrap_or_else(|| "/dev/stdout".into());
             std::process::exit(run_check(&prop, &tier, seed, &out));
         }
-        _ => eprintln!("usage: tauh serve | diff <seed> <n> | check <Cnn> <tier> <seed> <out.json>"),
+        _ => eprintln!("usage: tauh serve | diff <seed> <n> | check <Cnn> <tier> <seed> <out.json> | replay (request line on stdin)"),
     }
 }
